@@ -557,13 +557,11 @@ class CodeGenMapper(Mapper[ImplementedResult, Never, [CodeGenState]]):
                 state.var_name_gen(f"{name}_dim{d}")
                 for d in range(expr.ndim))
 
-            from pytato.utils import are_shape_components_equal
-            result_is_empty = any(
-                are_shape_components_equal(s_i, 0) for s_i in expr.shape)
-            if not result_is_empty:
-                domain = domain_for_shape(inames, loopy_shape, {})
-                state.update_kernel(
-                    state.kernel.copy(domains=[*state.kernel.domains, domain]))
+            # (also for an empty result: the stores of the reduction bounds
+            # below run inside these inames)
+            domain = domain_for_shape(inames, loopy_shape, {})
+            state.update_kernel(
+                state.kernel.copy(domains=[*state.kernel.domains, domain]))
 
             redn_bound_temps: dict[str, ImplementedResult] = {}
             new_redn_bounds: dict[
